@@ -269,6 +269,10 @@ def _count_fds():
 
 # ---------------------------------------------------------------------------
 FIDS = list(range(6))
+# any document; empty / comment-only / null documents more often (they share no
+# node with anything - unless an implementation makes them)
+DOC_INDEX = st.one_of(st.integers(0, len(W.DOCS) - 1),
+                      st.sampled_from([i for i, d in enumerate(W.DOCS) if d.strip() in ('', '~', '# only a comment')]))
 call_strategy = st.one_of(
     st.tuples(st.just('load'), st.sampled_from(FIDS), st.integers(0, len(W.DOCS) - 1)).map(list),
     st.builds(lambda f, vm, vi, oi: ['dump', f, vm, vi % len(W.VALUES[vm]), oi],
@@ -290,7 +294,7 @@ def make_machine(ctx):
             self.w.step(['make_dumps', fid, mi, dk])
 
         @precondition(lambda self: any(f[0] == 'load' for f in self.w.funcs.values()))
-        @rule(data=st.data(), di=st.integers(0, len(W.DOCS) - 1))
+        @rule(data=st.data(), di=DOC_INDEX)
         def call_load(self, data, di):
             fids = sorted(k for k, f in self.w.funcs.items() if f[0] == 'load')
             self.w.step(['load', data.draw(st.sampled_from(fids)), di])
@@ -306,7 +310,7 @@ def make_machine(ctx):
             self.w.step(['dump', fid, vm, vi % len(W.VALUES[vm]), oi])
 
         @precondition(lambda self: any(f[0] == 'load' for f in self.w.funcs.values()))
-        @rule(data=st.data(), di=st.integers(0, len(W.DOCS) - 1))
+        @rule(data=st.data(), di=DOC_INDEX)
         def call_load_again(self, data, di):
             # the same document from a file: same result, and the call must not
             # keep the file open (a descriptor held between calls is state)
